@@ -736,6 +736,7 @@ func checkQuiet(c *Case) string {
 
 func TestReplay(t *testing.T) {
 	ev.R().RunReplays(t, map[string]ev.ReplayFunc{
+		"bigsource": replayBig,
 		"input": func(raw json.RawMessage) *ev.Failure {
 			var c Case
 			if err := json.Unmarshal(raw, &c); err != nil {
